@@ -12,9 +12,25 @@ func Cross(a, b, c P2) float64 {
 	return (float64(b[0])-float64(a[0]))*(float64(c[1])-float64(a[1])) - (float64(b[1])-float64(a[1]))*(float64(c[0])-float64(a[0]))
 }
 
-// OnSeg reports whether p lies on the closed segment ab (exact on dyadic grids).
+// OrientSign is the sign of (b-a)x(c-a), exact for every input: the floating-point value decides when it is well clear
+// of its own rounding error (differences and products each rounded once, nothing near the underflow range), the
+// rational computation otherwise. (A cross product of 0.5 * 2^-1074 rounds to zero: thorough tier, seed 7.)
+func OrientSign(a, b, c P2) int {
+	t1 := (float64(b[0]) - float64(a[0])) * (float64(c[1]) - float64(a[1]))
+	t2 := (float64(b[1]) - float64(a[1])) * (float64(c[0]) - float64(a[0]))
+	det, mag := t1-t2, math.Abs(t1)+math.Abs(t2)
+	if mag > 1e-280 && mag < 1e300 && math.Abs(det) > 1e-14*mag {
+		if det > 0 {
+			return 1
+		}
+		return -1
+	}
+	return ExactOrient(a, b, c)
+}
+
+// OnSeg reports whether p lies on the closed segment ab.
 func OnSeg(p, a, b P2) bool {
-	if Cross(a, b, p) != 0 {
+	if OrientSign(a, b, p) != 0 {
 		return false
 	}
 	return math.Min(float64(a[0]), float64(b[0])) <= float64(p[0]) && float64(p[0]) <= math.Max(float64(a[0]), float64(b[0])) &&
@@ -31,7 +47,7 @@ func rayCrosses(p, a, b P2) bool {
 		return false
 	}
 	// p strictly left of the upward-directed line a->b  <=>  cross(a,b,p) > 0
-	return Cross(a, b, p) > 0
+	return OrientSign(a, b, p) > 0
 }
 
 const (
